@@ -452,6 +452,8 @@ def gen_dyn(g):
                           'value': r.choice([0, 1, -1, round(r.uniform(-1, 1), 3)])})
         if g.chance(0.15) and sched[-1]['op'] == 'run':
             sched.append(convert_live_op(g, chain))
+        if g.chance(0.1) and not g.cfg.get('differential'):
+            sched.append({'op': 'set_load', 'load': gen_load(g, model, chain)})
         gears = [d for d in scn['decls'] if d['op'] == 'gear' and
                  d['s'] in chain and d['m'] in chain]
         if gears and g.chance(0.12):
@@ -470,6 +472,8 @@ def gen_dyn(g):
     scn['schedule'] = sched
     add_control(g, scn, model, chain, p=0.4)
     add_stops(g, scn, model, chain, p=0.25)
+    if g.chance(0.08) and not g.cfg.get('differential'):
+        add_remating_phase(g, scn, model, chain, k)
     return scn
 
 
